@@ -8,6 +8,7 @@ from .. import terms as tm
 from .. import oracles
 from ..model import AnalysisError
 from .common import ob, need, call_name, count_form, linear_form, positive_facts, positive_term, strip_numeric, resolve_ite_free, is_lit, lit, facts, role_of
+from . import common
 from .. import symeval
 
 PROP = "C01"
@@ -1131,6 +1132,8 @@ def rule_voicinginterp(ctx):
 
 
 RULES = [
+    ("C01.RANKPAIRS", 6, common.shared("c17", "rule_rankpairs", "C01.RANKPAIRS")),
+    ("C01.OVERALLFORM", 3, common.shared("c04", "rule_overallform", "C01.OVERALLFORM")),
     ("C01.VOICINGINTERP", 1, rule_voicinginterp),
     ("C01.MATCHSRC", 4, rule_matchsrc),
     ("C01.WEIGHTEDMEAN", 4, rule_weightedmean),
